@@ -55,6 +55,15 @@ type scenario struct {
 	// made and judged against the contents BEFORE the write; then the callback returns nil, the write completes, and
 	// the listing and all passes are taken again and judged against the contents AFTER it.
 	Inflight *guardedWrite `json:"inflight,omitempty"`
+	// Raw: records configured with the RAW resource option resource.WithInitialRecord(SID, message whose key field
+	// is Key) handed to NewModel - the storage id and the key field are unrelated. The List RPCs sort by the key
+	// field, so paging must be right as long as the key fields are pairwise different and not empty.
+	Raw []rawRec `json:"raw,omitempty"`
+}
+
+type rawRec struct {
+	SID string `json:"sid"`
+	Key string `json:"key"`
 }
 
 // guardedWrite is a write of the model carrying a WithExpectedCheck option that parks and then refuses (or, with
@@ -512,7 +521,11 @@ func (sc scenario) run() (res runResult, err error) {
 	if sc.NInit < 0 || sc.NInit > len(sc.IDs) {
 		return res, fmt.Errorf("ninit %d out of range", sc.NInit)
 	}
-	panicked, msg := lib.Catch(func() { inst, err = r.build(r, sc.IDs, sc.NInit, icptOpts(sc.Icpt)) })
+	ropts := icptOpts(sc.Icpt)
+	for _, rr := range sc.Raw {
+		ropts = append(ropts, r.rawInit(rr))
+	}
+	panicked, msg := lib.Catch(func() { inst, err = r.build(r, sc.IDs, sc.NInit, ropts) })
 	if panicked {
 		return res, fmt.Errorf("building the collection panicked: %s", msg)
 	}
@@ -530,6 +543,9 @@ func (sc scenario) run() (res runResult, err error) {
 	orc := &oracle{norm: icptFn(sc.Icpt)}
 	for _, id := range res.base {
 		orc.entries = append(orc.entries, entry{orc.norm(id), id})
+	}
+	for _, rr := range sc.Raw {
+		orc.entries = append(orc.entries, entry{orc.norm(rr.SID), rr.Key})
 	}
 	for _, op := range sc.Ops {
 		out, got := runOp(inst, op)
@@ -829,6 +845,9 @@ func (sc scenario) driverLines(variant string, res runResult) []modelQ {
 			}
 		} else {
 			qs = append(qs, modelQ{Line: "keys " + hexList(res.base)})
+		}
+		for _, rr := range sc.Raw {
+			qs = append(qs, modelQ{Line: "sop raw " + hexID(rr.SID) + " " + hexID(rr.Key)})
 		}
 		for i, op := range sc.Ops {
 			qs = append(qs, modelQ{sc.opLine(op, res.gen[i]), res.ops[i], opKey(sc.RPC, "op", op, res.ops[i]), fmt.Sprintf("op %d", i)})
@@ -1151,6 +1170,9 @@ func (sc scenario) summary() map[string]any {
 	}
 	if sc.Inflight != nil {
 		out["inflight"] = sc.Inflight
+	}
+	if len(sc.Raw) > 0 {
+		out["raw"] = sc.Raw
 	}
 	return out
 }
